@@ -22,6 +22,9 @@ def units(tier):
             if fam != "ES":
                 out.append(("script", SIDECARS, H, "write_setting_row", f"write:{fam}#{i}@502", PROPS, tier,
                             {"family": fam, "index": i, "port": 502}))
+    # "write_setting succeeded" = its answer was accepted: the validators' echo clauses (tagged C17) belong to the check
+    out += contract_units(SIDECARS, ["goodwe.modbus.validate_modbus_rtu_response",
+                                     "goodwe.modbus.validate_modbus_tcp_response"], tier)
     out.append(("native", SIDECARS, "contracts.settings_native", "exhaustive_roundtrips", "exhaustive:setting_roundtrips",
                 ("C17",)))
     return out
